@@ -35,7 +35,8 @@ ORDERINGS = [list(p) for n in (1, 2, 3) for p in itertools.permutations(["cust",
 
 
 def enc_specs(plan):
-    return [{"sel": m["sel"], "pub": m["pub_der"]} for m in plan.meta if m["tag"] == 3 and m.get("explicit")]
+    # (in the order of plan.encs_w: encryptors for other selectors come before the matching one)
+    return list(getattr(plan, "extra_encs", [])) + [{"sel": m["sel"], "pub": m["pub_der"]} for m in plan.meta if m["tag"] == 3 and m.get("explicit")]
 
 
 def write_plan(rec, seams, orc, r, plan, content=None):
@@ -48,4 +49,5 @@ def dec_subsets(plan):
     ks = [k for k in ("cust", "ecc", "update") if k in plan.decs]
     for n in range(1, len(ks) + 1):
         for sub in itertools.combinations(ks, n):
-            yield [plan.decs[k] for k in sub]
+            # decryptors for other selectors (if the plan has any) in front of the matching ECC decryptor
+            yield [d for k in sub for d in ((list(getattr(plan, "extra_decs", [])) if k == "ecc" else []) + [plan.decs[k]])]
